@@ -37,6 +37,11 @@ func newSymVote(reg *stub.Registry, name string, withProof bool, prepares int) *
 		v.proof = newSymProof(reg, name+"_pr", prepares)
 		hb.PreparedProof = v.proof.b
 	}
+	if k := env.ParamOr("trailing", 0); k > 0 {
+		// non-canonical encoding of the vote's own header: extra bytes after its last field, signed as they are
+		raw := append(append([]byte{}, hb.Build().Raw()...), env.NondetBytes(name+"_trailing", k)...)
+		hb = protocol.ViewChangeHeaderBuilderFromRaw(raw)
+	}
 	v.snd = newSymSender(reg, name+"_s", uint64(v.height), hb.Build().Raw())
 	v.b = &protocol.ViewChangeMessageContentBuilder{SignedHeader: hb, Sender: v.snd.b}
 	return v
